@@ -488,8 +488,8 @@ def compact(rng, lines):
     return out
 
 
-def make_case(rng, kind, lines, lang, compacted=False):
-    """one history: the original text, then the variants"""
+def make_case(rng, kind, lines, lang, compacted=False, extra=()):
+    """one history: the original text, then the variants (extra: fixed variants, as (kinds, classes, text lines))"""
     if not compacted:
         lines = compact(rng, lines)
     orig = [render(toks) for toks in lines]
@@ -521,6 +521,7 @@ def make_case(rng, kind, lines, lang, compacted=False):
         v = [l + rng.choice(["", " # " + rng.choice(COMMENT_TEXTS)]) for l in rw_ends(rng, [
             [T(t.text, t.cls, t.sep + " " * rng.choice([0, 0, 1, 2])) if i else t for i, t in enumerate(toks)] for toks in toks2])]
         variants.append((["blanks", "ends", "comment", "case"], sorted(c if c != "vardef" else "var:both" for c in cls), v))
+    variants += list(extra)
     variants = [v for v in variants if v[2] != orig]
     ops = [{"op": "exec", "lang": lang, "text": "\n".join(orig)}]
     for _, _, v in variants:
@@ -609,8 +610,19 @@ def generate(rng, tier):
     n = 640 if tier == "quick" else 6000
     cases = []
     for kind, lang, lines in PINNED:
-        for _ in range(6 if kind == "var-reassign" else 1):
-            cases.append(make_case(rng, kind, lines, lang, compacted=(kind != "var-reassign")))
+        for k in range(6 if kind == "var-reassign" else 1):
+            extra = []
+            if kind == "var-reassign" and k == 0:
+                # fixed spellings: the first definition capitalised / upper-cased, the second as written, the use in a
+                # third case (a second map entry under another key would win or lose by byte order)
+                for styles in (("cap", "lower", "lower"), ("upper", "lower", "cap"), ("lower", "upper", "lower"),
+                               ("cap", "upper", "lower"), ("upper", "cap", "upper")):
+                    v = []
+                    for toks, st in zip(lines, styles):
+                        v.append(render([T(recase_word(rng, t.text, st) if t.cls in ("var", "vardef") else t.text, t.cls, t.sep)
+                                         for t in toks]))
+                    extra.append((["case"], ["var:both"], v))
+            cases.append(make_case(rng, kind, lines, lang, compacted=(kind != "var-reassign"), extra=extra))
     m = 45 if tier == "quick" else 300
     for i in range(m):
         cases.append(empty_case(rng, i))
